@@ -13,6 +13,6 @@ Definition field_keyhash (ranges : list range) (d : Z) (line : list Z) : N :=
 (* shard -f spec -d delim with n outputs on an input byte string; None = ParseFields rejects the spec *)
 Definition shard_tool_fields (spec : list Z) (d : Z) (n : N) (input : list Z) : option (list (list Z)) :=
   match parse_key_spec spec with
-  | Some ranges => Some (shard_tool (field_keyhash ranges d) n input)
+  | Some ranges => Some (shard_tool_fast (field_keyhash ranges d) n input)
   | None => None
   end.
